@@ -10,6 +10,7 @@ pub mod addr;
 pub mod proxy;
 pub mod cert;
 pub mod cli;
+pub mod jsontext;
 
 use crate::Suite;
 
@@ -27,6 +28,7 @@ pub fn by_name(name: &str) -> Option<Box<dyn Suite>> {
         "proxy" => Some(Box::new(proxy::ProxySuite)),
         "cert" => Some(Box::new(cert::CertSuite)),
         "cli" => Some(Box::new(cli::CliSuite)),
+        "jsontext" => Some(Box::new(jsontext::JsonTextSuite)),
         _ => None,
     }
 }
